@@ -3,6 +3,7 @@ import SedpackDriver.Hash
 import SedpackDriver.Filler
 import SedpackDriver.Pool
 import SedpackDriver.Iter
+import SedpackDriver.Tree
 open Lean
 namespace Sedpack.Drv
 
@@ -14,6 +15,7 @@ def dispatch (m : String) (j : Json) : Except String Json :=
   | "sb" => sb j
   | "rr" => rr j
   | "batches" => batchesJ j
+  | "tree" => tree j
   | _ => .error s!"unknown model {m}"
 
 end Sedpack.Drv
